@@ -64,11 +64,50 @@ Theorem C18_history_bounded : forall kf wait h,
 Proof. exact history_bounded. Qed.
 Print Assumptions C18_history_bounded.
 
+(* [well_formed]: every start finds its address free in the registry (never started, or closed by
+   CloseProxy since: the tcp-dynamic restart "start a; CloseProxy a; start a" is covered) and
+   nothing is started once Shutdown runs. *)
 Theorem C18_history_no_accept : forall wait h f t,
-  NoDup (history_addrs h) ->
+  well_formed h ->
   In f (run_history grpc_prog key_configured wait h) -> sfate_accepts f t = false.
 Proof. exact history_no_accept. Qed.
 Print Assumptions C18_history_no_accept.
+
+Theorem C18_distinct_starts_well_formed : forall started,
+  NoDup (map fst started) -> well_formed (map (fun p => HStart (fst p) (snd p)) started).
+Proof. exact distinct_starts_well_formed. Qed.
+Print Assumptions C18_distinct_starts_well_formed.
+
+Theorem C18_restart_history_well_formed :
+  well_formed [HStart (1, 9000) (Single (mkleaf KTcp [Fin 90; Inf])); HClose (1, 9000);
+               HStart (1, 9000) (Single (mkleaf KTcp [Fin 90])); HStart (1, 80) (Single (mkleaf KHttp []))] /\
+  run_history grpc_prog key_configured 300
+    [HStart (1, 9000) (Single (mkleaf KTcp [Fin 90; Inf])); HClose (1, 9000);
+     HStart (1, 9000) (Single (mkleaf KTcp [Fin 90])); HStart (1, 80) (Single (mkleaf KHttp []))]
+  = [SClosed; SReached (run_server grpc_prog 300 (Single (mkleaf KTcp [Fin 90])));
+     SReached (run_server grpc_prog 300 (Single (mkleaf KHttp [])))].
+Proof. exact restart_history_well_formed. Qed.
+Print Assumptions C18_restart_history_well_formed.
+
+(* Clause 1 is FALSE outside the well-formed histories (finding F-C18-3, open): a listener that is
+   started after Shutdown took its snapshot of the registry (main.go's tcp-dynamic watcher loop is
+   never stopped; serve() registers into the fresh map) is never shut down and accepts until the
+   process exits.  Complement: C18_history_no_accept (a well-formed history has no late start). *)
+Theorem C18_late_start_refuted :
+  exists h, has_late_start h = true /\
+    exists f, In f (run_history grpc_prog key_configured 300 h) /\ forall t, sfate_accepts f t = true.
+Proof. exact late_start_refuted. Qed.
+Print Assumptions C18_late_start_refuted.
+
+Theorem C18_late_start_accepts : forall gp kf wait h a s,
+  In (HStartDuring a s) h -> In SLate (run_history gp kf wait h).
+Proof. exact late_start_accepts. Qed.
+Print Assumptions C18_late_start_accepts.
+
+Theorem C18_well_formed_no_late_start : forall reg h,
+  well_formed_from reg h -> has_late_start h = false.
+Proof. exact well_formed_no_late_start. Qed.
+Print Assumptions C18_well_formed_no_late_start.
 
 Theorem C18_history_without_close : forall wait started,
   NoDup (map fst started) ->
@@ -93,6 +132,25 @@ Theorem C18_inflight_within_wait_complete : forall wait srvs s l n,
 Proof. exact inflight_within_wait_complete. Qed.
 Print Assumptions C18_inflight_within_wait_complete.
 
+(* Clause 2 is FALSE for hijacked HTTP connections (finding F-C18-2, open): http.Server.Shutdown does
+   not track a connection once the handler hijacked it (websocket sessions through HTTPProxy), so an
+   HTTP-only shutdown returns without waiting and the process exit cuts a session that would have
+   ended within the wait.  Complement: C18_inflight_within_wait_complete covers all tracked work
+   ([litems]); a hijacked session survives when something else keeps Shutdown busy, e.g. any TCP
+   listener (which always takes the full wait). *)
+Theorem C18_hijacked_refuted :
+  exists wait l n, lkind l = KHttp /\ In (Fin n) (lhijacked l) /\ n <= wait /\
+    r_hijacked (run_leaf grpc_prog wait l) = [Done n] /\
+    survives (shutdown wait [Single l]) (Done n) = false.
+Proof. exact hijacked_refuted. Qed.
+Print Assumptions C18_hijacked_refuted.
+
+Theorem C18_hijacked_survives_with_tcp : forall wait srvs s l n,
+  In s srvs -> In l (leaves s) -> lkind l = KTcp -> n <= wait ->
+  survives (shutdown wait srvs) (Done n) = true.
+Proof. exact hijacked_survives_with_tcp. Qed.
+Print Assumptions C18_hijacked_survives_with_tcp.
+
 (* nothing is ever cut before the deadline; only TCP tunnels and gRPC streams that outlive it are
    cut, exactly at the deadline; HTTP requests are never cut *)
 Theorem C18_cut_only_at_deadline : forall wait l d c,
@@ -107,6 +165,7 @@ Theorem C18_bounded : forall wait srvs, dle (g_ret (shutdown wait srvs)) (Fin wa
 Proof. exact bounded. Qed.
 Print Assumptions C18_bounded.
 
+(* corollary of C18_bounded (kept under its old name; before fix 72215e8 it was the strongest bound) *)
 Theorem C18_bounded_http_tcp : forall wait srvs,
   (forall s l, In s srvs -> In l (leaves s) -> lkind l <> KGrpc) ->
   dle (g_ret (shutdown wait srvs)) (Fin wait).
@@ -158,9 +217,9 @@ Print Assumptions C18_tcp_takes_full_wait.
    on [lstuck] at all (and every bound above holds for every [lstuck]); their clients see the
    connection closed at the deadline at the latest.  A Shutdown that waited for the handler
    goroutines would overrun the wait. *)
-Theorem C18_stuck_handlers_do_not_delay : forall wait l stuck',
+Theorem C18_stuck_handlers_do_not_delay : forall wait l stuck' hij',
   r_ret (run_leaf grpc_prog wait l) =
-  r_ret (run_leaf grpc_prog wait {| lkind := lkind l; litems := litems l; lstuck := stuck' |}).
+  r_ret (run_leaf grpc_prog wait {| lkind := lkind l; litems := litems l; lstuck := stuck'; lhijacked := hij' |}).
 Proof. exact stuck_handlers_do_not_delay. Qed.
 Print Assumptions C18_stuck_handlers_do_not_delay.
 
